@@ -107,6 +107,18 @@ def run(ctx):
             run.instance(R1, {"fn": "restore_missing_output", "field": "OutputData.root_key_id", "expected": "parent path of the recovered key id (the account the output belongs to)"}, held=held)
             if not held:
                 run.finding(Finding(R1, rmo.id, "restored output is filed under an account that is not the parent path of its key id", site=c.site_of(rmo, lits[0][0])))
+            # the log entry written for a restored output accounts for exactly that output
+            TLE = c.LW + "types::TxLogEntry"
+            asg = vf.field_assignments(rmo, TLE, "amount_credited")
+            h = bool(asg) and all(st["r"]["k"] == "use" and {x for x in vf.producers(rmo, st["r"]["o"]) if x[0] == "field" and x[1] == OR} == {("field", OR, "value")} for _b, st in asg)
+            run.instance(R1, {"fn": "restore_missing_output", "field": "TxLogEntry.amount_credited", "expected": "OutputResult.value"}, held=h)
+            if not h:
+                run.finding(Finding(R1, rmo.id, "the log entry of a restored output is not credited with the output's value", site=rmo.loc()))
+            cf = [st for _b, st in vf.field_assignments(rmo, TLE, "confirmed")]
+            h = bool(cf) and all(st["r"]["k"] == "use" and vf.const_of_operand(rmo, st["r"]["o"]) == "1" for st in cf)
+            run.instance(R1, {"fn": "restore_missing_output", "field": "TxLogEntry.confirmed", "expected": "true"}, held=h)
+            if not h:
+                run.finding(Finding(R1, rmo.id, "the log entry of a restored (on-chain) output is not marked confirmed", site=rmo.loc()))
             # the record is saved and committed on every Ok path
             c.require_pass(ctx, R1, rmo.id, c.WOB + "save", ("okret",), "Ok requires the OutputData save Ok")
             c.require_pass(ctx, R1, rmo.id, c.WOB + "commit", ("okret",), "Ok requires the batch commit Ok")
